@@ -253,7 +253,9 @@ func (ww *WW) reRegister(ms *MintSite) {
 	theTransport.Register(ms.Host, ms.W.Server.VerifHandler(), ww)
 }
 
-func (ww *WW) AddWallet(name, defaultMint string) error {
+// AddWallet creates a wallet on its default mint. trust lists the other mints it adds to its list (nil: every mint of the
+// world); a mint that is left out is an untrusted mint for this wallet until it receives a token from it without swapping.
+func (ww *WW) AddWallet(name, defaultMint string, trust []string) error {
 	dir := filepath.Join(ww.Dir, "w-"+name)
 	ms := ww.Mints[defaultMint]
 	var wrapped *dbwrap.WalletDB
@@ -268,9 +270,19 @@ func (ww *WW) AddWallet(name, defaultMint string) error {
 	if err != nil {
 		return err
 	}
-	// every wallet trusts every mint of the world
+	trusted := func(n string) bool {
+		if trust == nil {
+			return true
+		}
+		for _, t := range trust {
+			if t == n {
+				return true
+			}
+		}
+		return false
+	}
 	for n, other := range ww.Mints {
-		if n != defaultMint {
+		if n != defaultMint && trusted(n) {
 			if _, err := w.AddMint(other.URL); err != nil {
 				return err
 			}
